@@ -396,6 +396,18 @@ impl<SVC: Service> CloudServer<SVC> {
     }
 }
 
+/// Verification hooks: access to the private cleanup entry point and cleanup probability.
+#[cfg(gothenburgbitfactory_taskchampion_verif)]
+impl<SVC: Service> CloudServer<SVC> {
+    pub(in crate::server) async fn verif_cleanup(&mut self) -> Result<()> {
+        self.cleanup().await
+    }
+
+    pub(in crate::server) fn verif_set_cleanup_probability(&mut self, p: u8) {
+        self.cleanup_probability = p;
+    }
+}
+
 #[async_trait(?Send)]
 impl<SVC: Service + Send> Server for CloudServer<SVC> {
     async fn add_version(
